@@ -1866,7 +1866,20 @@ func checkLogsGrouping(c *Ctx, rule string) {
 			return
 		}
 		// value: a slice containing Result[i] ; key: struct{BlockNum(Result[i]), TxIdx(Result[i])}
-		ku, ok := mu.Key.(*ssa.UnOp)
+		keyV := stripConv(mu.Key)
+		// the key computed by a function handed to a grouping helper (`groupByTx(items, func(l *logResult) key {
+		// return key{uint64(l.BlockNum), uint64(l.TxIdx)} })`): the literal that function returns, its
+		// parameter being the element the helper passes (&items[i])
+		if kc, isCall := keyV.(*ssa.Call); isCall {
+			kf := staticCallee(kc)
+			if kf == nil {
+				kf = reg.paramCallee(kc)
+			}
+			if kf != nil && kf.Blocks != nil && len(returnsOf(kf)) == 1 && reg.site[kf] == ssa.CallInstruction(kc) {
+				keyV = stripConv(returnValues(returnsOf(kf)[0])[0])
+			}
+		}
+		ku, ok := keyV.(*ssa.UnOp)
 		if !ok {
 			return
 		}
@@ -1891,6 +1904,12 @@ func checkLogsGrouping(c *Ctx, rule string) {
 		r1, c1 := fieldChain(fields[1])
 		if len(c0) == 0 || len(c1) == 0 || c0[len(c0)-1].Name() != "BlockNum" || c1[len(c1)-1].Name() != "TxIdx" {
 			return
+		}
+		if _, isP := stripConv(r0).(*ssa.Parameter); isP {
+			r0 = reg.Resolve(stripConv(r0))
+		}
+		if _, isP := stripConv(r1).(*ssa.Parameter); isP {
+			r1 = reg.Resolve(stripConv(r1))
 		}
 		s0, i0, ok0 := elemOf(r0)
 		s1, i1, ok1 := elemOf(r1)
